@@ -47,6 +47,38 @@ def commonPrefix (W : Nat) (a b : Pfx) : Pfx :=
   let l := min (clz W (a.addr ^^^ b.addr)) (min b.len a.len)
   { addr := mask W l &&& a.addr, len := l }
 
+/-- Go `uint64(x) << sh` (0 when `sh ≥ 64`). -/
+def shl64 (x sh : Nat) : Nat := if sh < 64 then (x <<< sh) % 2 ^ 64 else 0
+
+/-- `V6CommonPrefix` literally, on the two `uint64` halves of each address. -/
+def v6CommonPrefix (a b : Pfx) : Pfx :=
+  let ah := a.addr / 2 ^ 64
+  let al := a.addr % 2 ^ 64
+  let bh := b.addr / 2 ^ 64
+  let bl := b.addr % 2 ^ 64
+  let xh := ah ^^^ bh
+  let xl := al ^^^ bl
+  let maxLen := min b.len a.len
+  if xh = 0 then
+    let l := min (64 + clz 64 xl) maxLen
+    { addr := 2 ^ 64 * ah + (shl64 (2 ^ 64 - 1) (128 - l) &&& al), len := l }
+  else
+    let l := min (clz 64 xh) maxLen
+    { addr := 2 ^ 64 * (shl64 (2 ^ 64 - 1) (64 - l) &&& ah), len := l }
+
+/-- `V6CIDR.ContainsV6` literally, on the two `uint64` halves. -/
+def v6Contains (c : Pfx) (a : Nat) : Bool :=
+  let xh := c.addr / 2 ^ 64 ^^^ a / 2 ^ 64
+  let xl := c.addr % 2 ^ 64 ^^^ a % 2 ^ 64
+  let cpl := if xh = 0 then 64 + clz 64 xl else clz 64 xh
+  decide (c.len ≤ cpl)
+
+/-- `V6Addr.NthBit` literally, on the two `uint64` halves (`n > 128` wraps the shift count to ≥ 64, giving 0). -/
+def v6NthBit (a n : Nat) : Nat :=
+  let h := a / 2 ^ 64
+  let l := a % 2 ^ 64
+  if n ≤ 64 then (h >>> (64 - n)) % 2 else if n ≤ 128 then (l >>> (128 - n)) % 2 else 0
+
 /-- The masked-CIDR invariant of `ip.CIDR` values. -/
 def Pfx.WF (W : Nat) (p : Pfx) : Prop :=
   p.len ≤ W ∧ p.addr < 2 ^ W ∧ p.addr % 2 ^ (W - p.len) = 0
